@@ -1214,6 +1214,57 @@ def oracle_task_values(ctx, b, c, fwd, what="b→c"):
                   sorted(cache[t])[:3], [r["base"], r["cont"]])
 
 
+def _expected_task_leaves(e, proc):
+    """the metrics of one stored per-task record that the comparison reports (docs/summary_report.rst: throughput
+    min / mean / median / max, latency / service time (/ processing time) percentiles, error rate), read from the raw record"""
+    out = {}
+    for sk in TP_SUBS:
+        if is_num((e.get("throughput") or {}).get(sk)):
+            out[("throughput", sk)] = e["throughput"][sk]
+    for grp in TASK_GROUPS if proc else TASK_GROUPS[:2]:
+        for pc in PCTS:
+            if is_num((e.get(grp) or {}).get(enc(pc))):
+                out[(grp, enc(pc))] = e[grp][enc(pc)]
+    if is_num(e.get("error_rate")):
+        out[("error_rate",)] = e["error_rate"]
+    return out
+
+
+def oracle_task_presence(ctx, b, c, rows, proc, what="b→c"):
+    """every metric that the record of a task has in BOTH races is listed for that task exactly once, whatever else the
+    record has or lacks (a task without throughput samples still has service times and an error rate) - the expectation
+    comes from the two stored dictionaries only, never from another run of the comparison"""
+    rb, db = _records_by_task_field(b)
+    rc, dc = _records_by_task_field(c)
+    fmts = _py_formatters()
+    for t in rb:
+        if t not in rc or t in db or t in dc or t == "":
+            continue
+        lb, lc = _expected_task_leaves(rb[t], proc), _expected_task_leaves(rc[t], proc)
+        both = sorted(lb.keys() & lc.keys())
+        mine = [r for r in rows if r["key"][1] == t]
+        ctx.count("task-presence:checked")
+        if both and not all(("throughput", s_) in both for s_ in TP_SUBS):
+            ctx.count("task-presence:without-full-throughput")
+        kind = "error-rate" if ("error_rate",) in both else "other"
+        for k in both:
+            cands = set()
+            for f in fmts.values():
+                try:
+                    cands.add((repr(canon_val(f(lb[k]))), repr(canon_val(f(lc[k])))))
+                except OverflowError:
+                    pass
+            if not any((repr(r["base"]), repr(r["cont"])) in cands for r in mine):
+                _fail(ctx, "task-metric-missing:" + ("error-rate" if k == ("error_rate",) else k[0]),
+                      f"{what}: {'.'.join(k)} of task {t!r} is stored in both races ({lb[k]!r} -> {lc[k]!r}) but no row of the task shows it "
+                      f"(the task has {len(mine)} rows, {len(both)} metrics in both races)", [".".join(x) for x in both][:12], [r["key"][0] for r in mine][:12])
+                break
+        else:
+            if len(mine) != len(both):
+                _fail(ctx, "task-row-count", f"{what}: task {t!r} has {len(both)} metrics in both races but {len(mine)} rows ({kind})",
+                      [".".join(x) for x in both][:12], [r["key"][0] for r in mine][:12])
+
+
 def oracle_presence(ctx, fwd, self_b, self_c):
     """a metric is listed iff it is present in both races = listed when each race is compared with itself"""
     both = {r["key"] for r in self_b} & {r["key"] for r in self_c}
@@ -1324,8 +1375,13 @@ def run_table(ctx, case):
             oracle_presence(ctx, fwd, sb, sc)
             oracle_count(ctx, b, c, fwd)
     oracle_task_values(ctx, b, c, fwd)
+    oracle_task_presence(ctx, b, c, fwd, proc)
     if "bwd" not in errs:
         oracle_task_values(ctx, c, b, bwd, "c→b")
+        oracle_task_presence(ctx, c, b, bwd, proc, "c→b")
+    if "self_b" not in errs and "self_c" not in errs:
+        oracle_task_presence(ctx, b, b, sb, proc, "b→b")
+        oracle_task_presence(ctx, c, c, sc, proc, "c→c")
     if use_model:
         oracle_global_values(ctx, b, c, fwd)
     else:
@@ -1464,6 +1520,7 @@ def run_store(ctx, case):
                 rows.append({"key": (r[0], r[1]), "base": base, "cont": cont, "fb": frac(base), "fc": frac(cont), "unit": r[5]})
             what = f"compare({bid!r}, {cid!r})"
             oracle_task_values(ctx, stored[bid], stored[cid], rows, what)
+            oracle_task_presence(ctx, stored[bid], stored[cid], rows, case["proc"], what)
             oracle_global_values(ctx, stored[bid], stored[cid], rows, what)
             # … and every metric both named races have is listed
             u = universe()
@@ -1601,6 +1658,7 @@ def run_session(ctx, case):
                 if call["b"] == call["c"]:
                     oracle_self(ctx, parsed, what)
             oracle_task_values(ctx, b, c, parsed, what)
+            oracle_task_presence(ctx, b, c, parsed, proc, what)
             oracle_global_values(ctx, b, c, parsed, what)
             oracle_count(ctx, b, c, parsed)
             steps.append((call, parsed if rich is not None else None))
@@ -1623,6 +1681,211 @@ def run_session(ctx, case):
         ctx.count("session:self-after-first" if selfc else "session:no-late-self")
         ctx.count("session:calls", len(calls))
         ctx.sig([sorted(set(kinds)), mirrored, selfc, len(calls), any(s_ and s_[1] for s_ in steps)], nontrivial=len(calls) > 1)
+    finally:
+        shutil.rmtree(tmp, ignore_errors=True)
+
+
+# ---------------------------------------------------------------------------------------------
+# from the samples of two races to the comparison: the REAL GlobalStatsCalculator on an in-memory metrics store writes the
+# results (summary_stats / add_op_metrics), they are stored as race.json and compared with reporter.compare()
+# ---------------------------------------------------------------------------------------------
+def gen_race_results(ctx):
+    rng = ctx.rng
+    for _ in range(ctx.budget):
+        names = rng.sample(["index", "term-query", "scroll", "force-merge", "agg"], rng.choice([1, 2, 3]))
+
+        def task(name):
+            kind = rng.choice(["normal", "normal", "all-failed", "warmup-only", "no-throughput", "hidden-failing", "hidden-ok", "silent"])
+            n = rng.choice([1, 2, 4])
+            vals = lambda: [float(4 * rng.randrange(1, 500)) for _ in range(n)]
+            t = {"name": name, "op": rng.choice(["bulk", "search"]), "include": kind not in ("hidden-failing", "hidden-ok"), "kind": kind,
+                 "tp": [], "tp_warmup": [], "svc": [], "lat": []}
+            if kind in ("normal", "hidden-failing", "hidden-ok"):
+                t["tp"] = vals()
+            if kind in ("normal", "warmup-only", "hidden-failing", "hidden-ok", "all-failed") and rng.random() < 0.8:
+                t["tp_warmup"] = vals()
+            if kind != "silent":
+                sv = vals()
+                if kind in ("all-failed", "hidden-failing"):
+                    ok = [False] * n if kind == "all-failed" or rng.random() < 0.5 else [False] + [True] * (n - 1)
+                elif kind == "hidden-ok":
+                    ok = [True] * n
+                else:
+                    ok = [rng.random() < 0.8 for _ in range(n)]
+                t["svc"] = [[v, o] for v, o in zip(sv, ok)]
+                t["svc_warmup_only"] = kind == "warmup-only"
+                if rng.random() < 0.7:
+                    t["lat"] = [v + 4.0 for v in sv]
+            return t
+
+        rb = [task(n_) for n_ in names]
+        rc = [task(n_) for n_ in names if rng.random() < 0.9]
+        rng.shuffle(rc)
+        yield {"proc": rng.random() < 0.3, "races": [{"id": "base", "tasks": rb}, {"id": "cont", "tasks": rc}]}
+
+
+def _calculate(race_case):
+    """real store + real calculator; returns the results dictionary as stored in race.json"""
+    import datetime
+    import json as _json
+    import types as _types
+
+    from esrally import config, metrics, track
+
+    cfg = config.Config()
+    for sec, k, v in (("system", "env.name", "local"), ("system", "time.start", datetime.datetime(2026, 1, 1)), ("system", "race.id", race_case["id"]),
+                      ("reporting", "datastore.type", "in-memory"), ("mechanic", "car.names", ["c"]), ("mechanic", "car.params", {}),
+                      ("mechanic", "plugin.params", {}), ("race", "user.tags", {}), ("race", "pipeline", "benchmark-only"), ("track", "params", {})):
+        cfg.add(config.Scope.application, sec, k, v)
+    optype = {"bulk": track.OperationType.Bulk, "search": track.OperationType.Search}
+    tasks = []
+    for t in race_case["tasks"]:
+        op = track.Operation(name=t["op"] + "-op", operation_type=optype[t["op"]].to_hyphenated_string(), params={"include-in-reporting": t["include"]})
+        tasks.append(track.Task(name=t["name"], operation=op))
+    challenge = track.Challenge(name="ch", schedule=tasks, default=True)
+    trk = track.Track("t", "t", challenges=[challenge])
+    store = metrics.metrics_store(cfg, read_only=False, track=trk, challenge=challenge)
+    for t, tk in zip(race_case["tasks"], tasks):
+        ot = tk.operation.type
+        for v in t["tp_warmup"]:
+            store.put_value_cluster_level("throughput", v, unit="ops/s", task=t["name"], operation_type=ot, sample_type=metrics.SampleType.Warmup)
+        for v in t["tp"]:
+            store.put_value_cluster_level("throughput", v, unit="ops/s", task=t["name"], operation_type=ot)
+        st = metrics.SampleType.Warmup if t.get("svc_warmup_only") else metrics.SampleType.Normal
+        for i, (v, ok) in enumerate(t["svc"]):
+            store.put_value_cluster_level("service_time", v, unit="ms", task=t["name"], operation_type=ot, sample_type=st, meta_data={"success": ok}, relative_time=10 + i)
+        for v in t["lat"]:
+            store.put_value_cluster_level("latency", v, unit="ms", task=t["name"], operation_type=ot, sample_type=st)
+    stats = metrics.calculate_results(store, _types.SimpleNamespace(track=trk, challenge=challenge))
+    return _json.loads(_json.dumps(stats.as_dict()))
+
+
+def _expected_record(t):
+    """what the property needs of one task of the case, from its samples alone: None = the task is not part of the results"""
+    normal_svc = [] if t.get("svc_warmup_only") else t["svc"]
+    er = (sum(1 for _v, ok in normal_svc if not ok) / len(normal_svc)) if normal_svc else 0.0
+    if not (t["include"] or er > 0):
+        return None
+    tp = sorted(t["tp"])
+    summary = None
+    if tp:
+        n = len(tp)
+        summary = {"min": tp[0], "max": tp[-1], "mean": sum(tp) / n, "median": tp[n // 2] if n % 2 else (tp[n // 2 - 1] + tp[n // 2]) / 2}
+    return {"error_rate": er, "tp": summary, "unit": "ops/s" if (t["tp"] or t["tp_warmup"]) else None,
+            "svc_max": max((v for v, _ok in normal_svc), default=None)}
+
+
+def run_race_results(ctx, case):
+    import json as _json
+
+    from esrally import config, reporter
+
+    proc = case["proc"]
+    tmp = tempfile.mkdtemp(prefix="c20-results-")
+    try:
+        stored, expected = {}, {}
+        for r in case["races"]:
+            try:
+                res = _calculate(r)
+            except Exception as e:  # the real calculator fails on a generated race: judged, not a harness error
+                ctx.diff(f"calculate:{r['id']}", "results", f"{type(e).__name__}: {e}"[:200])
+                return
+            stored[r["id"]] = res
+            expected[r["id"]] = {t["name"]: _expected_record(t) for t in r["tasks"]}
+            # (1) the stored per-task records: model opRecord / summaryStats against the real calculator, and the direct
+            # statement "a task in the results always has an error rate; its throughput is complete or entirely None"
+            recs, _d = _records_by_task_field(res)
+            for t in r["tasks"]:
+                exp = expected[r["id"]][t["name"]]
+                got = recs.get(t["name"])
+                ctx.count("record:" + t["kind"])
+                if exp is None or got is None:
+                    if (exp is None) != (got is None):
+                        _fail(ctx, "results-task-set", f"task {t['name']!r} ({t['kind']}) of race {r['id']} is {'missing from' if got is None else 'unexpectedly in'} the results", exp, got)
+                    continue
+                if not is_num(got.get("error_rate")) or abs(got["error_rate"] - exp["error_rate"]) > 1e-12:
+                    _fail(ctx, "results-error-rate", f"error rate of task {t['name']!r} ({t['kind']})", exp["error_rate"], got.get("error_rate"))
+                tpv = [(got.get("throughput") or {}).get(k) for k in TP_SUBS]
+                if (exp["tp"] is None) != all(v is None for v in tpv) or (exp["tp"] and [exp["tp"][k] for k in TP_SUBS] != tpv):
+                    _fail(ctx, "results-throughput", f"throughput statistics of task {t['name']!r} ({t['kind']})", exp["tp"], tpv)
+                timings = [[k, v] for k, v in to_model({"op_metrics": [got]})["tasks"][0]["vals"] if not k.startswith("throughput.") and k != "error_rate"]
+                args = {"task": t["name"], "operation": got["operation"], "unit": exp["unit"], "timings": timings, "error_rate": canon_val(exp["error_rate"])}
+                for k in TP_SUBS:
+                    args[k] = canon_val(exp["tp"][k]) if exp["tp"] else None
+                m = ctx.model("compare", "op_record", args)
+                if "err" in m:
+                    ctx.diff(f"op_record:{t['name']}", m["err"], "a record")
+                    continue
+                real = to_model({"op_metrics": [got]})["tasks"][0]
+                canon = lambda rec: (rec["task"], rec["operation"], sorted((k, repr(v)) for k, v in rec["vals"]), sorted(tuple(x) for x in rec["units"] if x[0].startswith("throughput.")))
+                if canon(m["r"]) != canon(real):
+                    ctx.diff(f"op_record:{t['name']}:{t['kind']}", canon(m["r"]), canon(real))
+            d = os.path.join(tmp, "races", r["id"])
+            os.makedirs(d)
+            doc = {"rally-version": "2.0.0", "rally-revision": "abc", "environment": "local", "race-id": r["id"], "race-timestamp": "20260101T000000Z",
+                   "pipeline": "benchmark-only", "user-tags": {}, "track": "t", "car": ["c"], "challenge": "ch",
+                   "cluster": {"revision": "r", "distribution-version": "8.0.0", "distribution-flavor": "default", "team-revision": "t"}, "results": res}
+            with open(os.path.join(d, "race.json"), "w", encoding="utf-8") as f:
+                f.write(_json.dumps(doc, indent=True))
+        sig = []
+        for bid, cid in (("base", "cont"), ("cont", "base"), ("cont", "cont")):
+            out = os.path.join(tmp, f"report-{bid}-{cid}.csv")
+            cfg = config.Config()
+            for sec, k, v in (("reporting", "output.path", out), ("reporting", "format", "csv"), ("reporting", "output.processingtime", proc),
+                              ("reporting", "datastore.type", "in-memory"), ("node", "rally.cwd", tmp), ("node", "root.dir", tmp), ("system", "env.name", "local")):
+                cfg.add(config.Scope.application, sec, k, v)
+            what = f"compare({bid!r}, {cid!r})"
+            try:
+                with _rich_console():
+                    reporter.compare(cfg, bid, cid)
+                with open(out, newline="", encoding="utf-8") as f:
+                    got = list(csv.reader(f))[1:]
+            except Exception as e:
+                _fail(ctx, "store-error", f"{what} raises on results written by the stats calculator", "a report", f"{type(e).__name__}: {e}"[:200])
+                continue
+            m = ctx.model("compare", "compare_store", {"races": [{"id": i, "stats": to_model(x)} for i, x in stored.items()], "bid": bid, "cid": cid, "plain": True, "proc": proc})
+            if "err" in m:
+                ctx.diff(what, m["err"], "rows")
+            else:
+                mm = [[r[0], r[1], _pystr(r[2]), _pystr(r[3]), r[4], "" if r[5] is None else r[5], r[6]] for r in m["r"]]
+                if mm != got:
+                    bad = [(a, z) for a, z in zip(mm, got) if a != z][:1] or [(len(mm), len(got))]
+                    ctx.diff(what, bad[0][0], bad[0][1])
+            rows = []
+            for r in got:
+                try:
+                    base, cont = canon_val(_parse_num(r[2])), canon_val(_parse_num(r[3]))
+                except (ValueError, IndexError):
+                    _fail(ctx, "row-shape", "report row without numeric values", None, r)
+                    continue
+                rows.append({"key": (r[0], r[1]), "base": base, "cont": cont, "fb": frac(base), "fc": frac(cont), "unit": r[5]})
+            # (2) direct oracle from the SAMPLES: every task that is part of both races shows its error rate (in %), its
+            # throughput extremes when both races have samples, and its largest service time
+            for name, eb in expected[bid].items():
+                ec = expected[cid].get(name)
+                if eb is None or ec is None:
+                    continue
+                mine = [r for r in rows if r["key"][1] == name]
+                shows = lambda x, y: sum(1 for r in mine if abs(r["fb"] - _exact_frac(x)) <= Fraction(1, 10**9) and abs(r["fc"] - _exact_frac(y)) <= Fraction(1, 10**9))
+                kinds = "/".join(sorted({t["kind"] for r in case["races"] for t in r["tasks"] if t["name"] == name}))
+                ctx.count("compared-task:" + ("with" if eb["tp"] and ec["tp"] else "without") + "-throughput-in-both")
+                if shows(eb["error_rate"] * 100, ec["error_rate"] * 100) < 1:
+                    _fail(ctx, "task-metric-missing:error-rate", f"{what}: error rate of task {name!r} ({kinds}) {eb['error_rate']!r} -> {ec['error_rate']!r} is not listed "
+                          f"(rows of the task: {len(mine)})", [eb["error_rate"] * 100, ec["error_rate"] * 100], [r["key"][0] for r in mine][:8])
+                if eb["tp"] and ec["tp"] and (shows(eb["tp"]["min"], ec["tp"]["min"]) < 1 or shows(eb["tp"]["max"], ec["tp"]["max"]) < 1):
+                    _fail(ctx, "task-metric-missing:throughput", f"{what}: throughput of task {name!r} is not listed", [eb["tp"], ec["tp"]], [r["key"][0] for r in mine][:8])
+                if eb["svc_max"] is not None and ec["svc_max"] is not None and shows(eb["svc_max"], ec["svc_max"]) < 1:
+                    _fail(ctx, "task-metric-missing:service_time", f"{what}: largest service time of task {name!r} ({kinds}) {eb['svc_max']!r} -> {ec['svc_max']!r} is not listed",
+                          [eb["svc_max"], ec["svc_max"]], [r["key"][0] for r in mine][:8])
+                sig.append((bool(eb["tp"]), bool(ec["tp"]), eb["error_rate"] > 0, ec["error_rate"] > 0, len(mine) > 0))
+            listed = {r["key"][1] for r in rows if r["key"][1] != ""}
+            ghost = listed - {n_ for n_, e in expected[bid].items() if e is not None and expected[cid].get(n_) is not None}
+            if ghost:
+                _fail(ctx, "task-listed-but-not-in-both", f"{what}: rows for tasks that are not part of both races", None, sorted(ghost))
+            # (3) and the complete count per task, from the stored dictionaries
+            oracle_task_presence(ctx, stored[bid], stored[cid], rows, proc, what)
+            oracle_task_values(ctx, stored[bid], stored[cid], rows, what)
+        ctx.sig(sorted(set(sig)), nontrivial=bool(sig))
     finally:
         shutil.rmtree(tmp, ignore_errors=True)
 
@@ -1669,4 +1932,5 @@ STREAMS = [
     Stream("compare_store", gen_store, run_store, quick=240, thorough=3000, shards=16),
     Stream("none_lists", gen_none_lists, run_table, quick=320, thorough=6000, shards=8),
     Stream("disk_usage", gen_disk_usage, run_table, quick=240, thorough=4000, shards=8),
+    Stream("race_results", gen_race_results, run_race_results, quick=240, thorough=4000, shards=8),
 ]
